@@ -149,12 +149,16 @@ func c05Env(shape string, serials [4]*big.Int) *c05env {
 		{"20-byte", []*big.Int{big20}, true}, {"100-unrelated", many(nil), true}, {"cross:inter+tcb-signers", []*big.Int{interSN, tcbSN, qeSN}, true},
 		{"leaf", []*big.Int{leafSN}, false}, {"leaf-among-100", many(leafSN), false}, {"leaf-last", []*big.Int{unrelated, big20, leafSN}, false},
 		{"leaf@128-of-300", manyAt(leafSN, 128), false}, {"leaf@256-of-300", manyAt(leafSN, 256), false}, {"leaf@299-of-300", manyAt(leafSN, 299), false}, {"300-unrelated", manyAt(unrelated, 7), true},
-		{"leaf+2^64,+2^32,+2^8", []*big.Int{up(leafSN, 64), up(leafSN, 32), up(leafSN, 8)}, true}}
+		{"leaf+2^64,+2^32,+2^8", []*big.Int{up(leafSN, 64), up(leafSN, 32), up(leafSN, 8)}, true},
+		// entries that are the leaf's serial up to sign / repeated: each entry stands for itself
+		{"-leaf-then-leaf", []*big.Int{new(big.Int).Neg(pm(leafSN, 0)), leafSN}, false}, {"leaf-then--leaf", []*big.Int{leafSN, new(big.Int).Neg(pm(leafSN, 0))}, false},
+		{"-leaf-only", []*big.Int{new(big.Int).Neg(pm(leafSN, 0))}, true}, {"unrelated-twice-then-leaf", []*big.Int{unrelated, unrelated, leafSN}, false}, {"leaf-twice", []*big.Int{leafSN, leafSN}, false}}
 	rootSets := []rset{{"none", nil, true}, {"unrelated", []*big.Int{unrelated}, true}, {"inter-1", []*big.Int{pm(interSN, -1)}, true}, {"tcb+1", []*big.Int{pm(tcbSN, 1)}, true},
 		{"100-unrelated", many(nil), true}, {"cross:leaf", []*big.Int{leafSN}, true},
 		{"inter", []*big.Int{interSN}, false}, {"tcbinfo-signer", []*big.Int{tcbSN}, false}, {"qeidentity-signer", []*big.Int{qeSN}, false},
 		{"inter-among-100", many(interSN), false}, {"qeidentity-signer-last", []*big.Int{unrelated, qeSN}, false},
 		{"inter@128-of-300", manyAt(interSN, 128), false}, {"tcbinfo-signer@299-of-300", manyAt(tcbSN, 299), false},
+		{"-inter-then-inter", []*big.Int{new(big.Int).Neg(pm(interSN, 0)), interSN}, false}, {"-tcbinfo-signer-then-tcbinfo-signer", []*big.Int{new(big.Int).Neg(pm(tcbSN, 0)), tcbSN}, false},
 		{"signers+2^64,+2^32,+2^8", []*big.Int{up(interSN, 64), up(tcbSN, 64), up(qeSN, 64), up(interSN, 32), up(tcbSN, 32), up(qeSN, 32), up(tcbSN, 8)}, true}}
 	type signer = c05signer
 	pckSigners := []signer{{"inter", pki.Inter, pki.InterKey, true}, {"root", pki.Root, pki.RootKey, false}, {"F.inter", F.Inter, F.InterKey, false},
